@@ -29,6 +29,23 @@ CHECKS["C10"] = ("exploration",
     "All 6^4 assignments of {absent, dir, file, symlink->dir, symlink->file, dangling} to bin/lib/include/pkgconfig x 5 kinds of explicit entries on the same variables x 5 query scopes x 3 starting envs; each layer is read 4 times with 3 read->write cycles in between and the whole layer snapshot must stay byte-identical; thorough adds 20k random layers with symlink chains, loops, FIFOs, absolute links and odd layer-dir names.",
     "Trusted: tools/envmodel.py implicit_paths (os.path.isdir). Implicit entries are expected in front of the result of the explicit deltas of the same scope.")
 
+CHECKS["C13"] = ("exploration",
+    "runtime monitoring: real build_libcnb_buildpacks_dependency_graph + get_dependencies on every labelled DAG materialised on disk, each returned order judged by a brute-force closure/topological checker",
+    "Every labelled DAG on 1..4 (quick) / 1..5 (thorough: 29 281 DAGs, 9.5 M orderings) nodes is written out as a workspace of composite / libcnb.rs / foreign buildpacks with libcnb: and noise dependencies in 8 layout variants, loaded through the real graph builder, and every non-empty ordered root selection is ordered by the real get_dependencies; the result must be exactly the reflexive-transitive closure, duplicate-free, dependencies first. Random DAGs on 6-12 nodes and workspaces with one dangling dependency (must be an error naming it) are added.",
+    "Trusted: the brute-force judge inside the executor (adjacency matrix drawn by the generator itself).")
+CHECKS["C14"] = ("exploration",
+    "runtime monitoring: real package_composite_buildpack on generated composite buildpacks; the written package.toml is read by an independent TOML parser and compared with a reference normaliser (posixpath)",
+    "Generated package.toml files mix libcnb:, relative (with '.', '..', '//', trailing '/', climbing above '/'), absolute, docker, http(s), urn and file URIs in any order and multiplicity (incl. duplicates that collapse after normalisation), all [platform] variants, several source depths, complete id->path maps or maps missing exactly one referenced id; output must parse, keep count and order, map each kind as the statement says, preserve buildpack.uri/platform, and be readable by libcnb again; a missing id must be an error with no package.toml written.",
+    "Trusted: tools/c14.py reference (posixpath.normpath/join) and tomllib. One open known finding (scheme lower-casing) is listed in KNOWN_FINDINGS.txt.")
+CHECKS["C18"] = ("exploration",
+    "runtime monitoring: real Inventory::resolve / partial_resolve over an exhaustively enumerated inventory x query space judged by brute-force maximality, plus checksum / TOML round-trip monitors judged by an independent recogniser and tomllib",
+    "Every ordered inventory with duplicates of <=4 (quick) / <=5 (thorough) artifacts over {3-4 versions x 2 OS x 2 arch x 2 metadata} for u8 and semver (total orders), product-order pairs and f32 with NaN (partial orders), against every query (os x arch x version sets x metadata requirement via a custom ArtifactRequirement): the result must be in the independently computed matching set, no matching artifact may have a greater version, None iff nothing matches. All checksum strings with remainders up to length 5/6 over {a,F,0,g,:,space} behind 12 prefixes for a 2-byte digest and +-3 around the real SHA-256/512 lengths; random inventories rendered to TOML are re-read by tomllib and by libcnb.",
+    "Trusted: the brute-force judge inside the executor, rec_checksum in tools/c18.py, tomllib.")
+CHECKS["C19"] = ("exploration",
+    "runtime monitoring: real output_and_write_streams / spawn_and_write_streams on a scripted child under concurrent load with recording writers and a /proc-based deadlock diagnosis; writers enumerated over all strings x all chunkings against an independent segment model",
+    "Streams: a scripted child writes checkable byte sequences (0 to 4 pipe buffers, one stream first, alternating, simultaneous from two threads, delays, early close, exit codes) while 24 instances run concurrently; recording / slow / partial-write writers; both the writers and Output must hold exactly the child's bytes per stream, status must match; a run that does not return within 10 s is a violation only if /proc shows the child blocked writing a pipe that no parent thread reads with no progress over 3 s, else inconclusive. Writers: every string over {marker, other} up to length 11 (quick) / 13 (thorough) x every split into write calls through line_mapped+drop, mapped+unwrap, tee with partial-write targets and stacked combinations.",
+    "Trusted: the segment model in the executor; /proc/<pid>/task/*/syscall as deadlock evidence. Liveness is restated as bounded progress.")
+
 PENDING = {}
 
 
